@@ -41,7 +41,7 @@ class C12(Campaign):
     quick_runs = 2500
     thorough_runs = 40000
     fault_kinds = ["late-listener@op", "re-attach@op (same object again)", "several instances interleaved",
-                   "distinct listener objects that compare and hash equal",
+                   "distinct listener objects that compare and hash equal", "falsy listener objects (__len__ == 0 / __bool__ False)",
                    "listener attached first to a shallow copy (copy.copy) of the machine, then to the machine",
                    "guard name provided by several objects", "coroutine listener (constructor or late)"]
     rule = ("one run = a generated machine whose callback names (actions of every group, plain-name guards and "
@@ -68,6 +68,8 @@ class C12(Campaign):
         prog = sc["programs"][0]
         # distinct listener objects that compare equal (value-based __eq__): still distinct providers
         prog["listener_eq_all"] = rnd.random() < 0.2
+        # listeners that are falsy objects (empty recorders defining __len__, or __bool__)
+        prog["listener_falsy"] = {r_: rnd.choice(["len", "bool"]) for r_ in prog["listeners"] if rnd.random() < 0.2}
         ls = list(prog["listeners"])
         rnd.shuffle(ls)
         # constructor listeners: as few as the inline names allow; the rest is attached late
